@@ -26,6 +26,12 @@ def check(ctx):
     # R15.1
     st = stores_attr(r, "sensitive_mean_")
     ctx.floor("R15.1", "stores of sensitive_mean_", len(st), 1)
+    if len(st) > 1 and r.final is not None and (r.self_term, "sensitive_mean_") in r.final.heap:
+        # assigned on several branches (if/else instead of a conditional expression): judge the merged value once
+        from ..terms import Event as _Ev
+        merged = _Ev(st[-1].seq, "store", (), st[-1].node, st[-1].func, st[-1].cls_ctx, (), (),
+                     {"value": r.final.heap[(r.self_term, "sensitive_mean_")]}, None, r.self_term)
+        st = [merged]
     for e in st:
         bad = []
         for ms_kind in ("one", "many"):
@@ -107,11 +113,24 @@ def check(ctx):
     else:
         got_df = specialise(final, {is_df: True})
         want_df = A2.entry(rl, "{c: i for i, c in enumerate(X.columns)}")
-        if not A2.eq(got_df, want_df):
+        alt_df = [A2.entry(rl, s_) for s_ in ("dict(zip(X.columns, range(len(X.columns))))", "dict(zip(X.columns, range(X.shape[1])))",
+                                              "dict((c, i) for i, c in enumerate(X.columns))",
+                                              "{X.columns[i]: i for i in range(len(X.columns))}")]
+        if not A2.eq(got_df, want_df) and not any(A2.eq(got_df, a_) for a_ in alt_df):
             bad.append(f"DataFrame input: lookup_ = {A2.show(got_df, 160)} (documented: column label -> position for every DataFrame)")
         got_arr = specialise(final, {is_df: False})
         arr_ok = any(s_.op == "comp" and s_.args[0] == "dict" and s_.args[1].op == "kv" and s_.args[1].args[0] is s_.args[1].args[1]
                      for s_ in subterms(got_arr))
+        def _ident(s_):
+            # dict(zip(r, r)) / dict((i, i) for i in r): the identity on r, like {i: i for i in r}
+            if not (s_.op == "call" and s_.args[0] is glob("builtins.dict") and len(s_.args[1]) == 1):
+                return False
+            a_ = s_.args[1][0]
+            if a_.op == "call" and a_.args[0] is glob("builtins.zip") and len(a_.args[1]) == 2:
+                return a_.args[1][0] is a_.args[1][1] and a_.args[1][0].op == "call" and a_.args[1][0].args[0] is glob("builtins.range")
+            return a_.op == "comp" and a_.args[1].op == "tuple" and len(a_.args[1].args[0]) == 2 and \
+                a_.args[1].args[0][0] is a_.args[1].args[0][1]
+        arr_ok = arr_ok or any(_ident(s_) for s_ in subterms(got_arr))
         if not arr_ok:
             bad.append(f"array input: lookup_ = {A2.show(got_arr, 120)} (documented: identity on column positions)")
     ctx.ob("R15.4", rl.func, None, not bad, "lookup_ maps each column label of a DataFrame to its position (identity for arrays)"
